@@ -12,6 +12,7 @@ import (
 	"testing"
 
 	an "github.com/benoitkugler/gomacro/analysis"
+	ansql "github.com/benoitkugler/gomacro/analysis/sql"
 	gen "github.com/benoitkugler/gomacro/generator"
 )
 
@@ -19,6 +20,7 @@ const govcModelSrc = `package m
 
 type IdA int64
 type IdB int64
+type IdC int64
 
 type Tags []string
 
@@ -43,6 +45,24 @@ type B struct {
 	Name string
 	Id   IdB
 	V    float64
+}
+
+// guard declared before the id; single-column unique foreign key whose field is not named like its type
+// gomacro:SQL ADD UNIQUE(Owner)
+type C struct {
+	Kind  string ` + "`gomacro-sql-guard:\"'c'\"`" + `
+	Id    IdC
+	Title string
+	Pages int
+	Owner IdA
+}
+
+// link table with a guard
+type Link2 struct {
+	IdA  IdA
+	IdC  IdC
+	Kind string ` + "`gomacro-sql-guard:\"'l'\"`" + `
+	Note string
 }
 
 // gomacro:SQL ADD UNIQUE(IdA, IdB)
@@ -101,6 +121,64 @@ func TestGovcHarness_Placeholders(t *testing.T) {
 	code := gen.WriteDeclarations(Generate(ana, true))
 	cases := 0
 	defer func() { fmt.Printf("GOVC-CASES %d\n", cases) }()
+	// the schema side: columns of every table, as the SQL generator will declare them (PostgreSQL folds case)
+	type tinfo struct {
+		cols     map[string]bool
+		writable []string // non guard columns, without the serial id of primary tables, in column order
+	}
+	schema := map[string]tinfo{}
+	for _, ta := range ansql.SelectTables(ana) {
+		ti := tinfo{cols: map[string]bool{}}
+		for i, c := range ta.Columns {
+			name := strings.ToLower(c.Field.Field.Name())
+			ti.cols[name] = true
+			if _, isGuard := c.Field.IsSQLGuard(); isGuard || i == ta.Primary() {
+				continue
+			}
+			ti.writable = append(ti.writable, name)
+		}
+		schema[gen.SQLTableName(ta.TableName())] = ti
+	}
+	reTable := regexp.MustCompile(`(?i)\b(?:FROM|INTO|UPDATE)\s+(\w+)`)
+	reCmp := regexp.MustCompile(`(\w+)\s*(?:=|IS NOT DISTINCT FROM)\s*(?:ANY\()?\$\d+`)
+	reInsert := regexp.MustCompile(`(?is)INSERT INTO (\w+)\s*\(([^)]*)\)\s*VALUES`)
+	fail := func(format string, a ...interface{}) {
+		msg := fmt.Sprintf(format, a...)
+		fmt.Printf("GOVC-FAIL {\"statement\":%q}\n", msg)
+		t.Error(msg)
+	}
+	for _, m := range govcCall.FindAllStringSubmatch(code, -1) {
+		query := m[2] + m[3]
+		if strings.Contains(query, "%s") || strings.Contains(query, "\" +") {
+			continue
+		}
+		tm := reTable.FindStringSubmatch(query)
+		if tm == nil {
+			continue
+		}
+		cases++
+		ti, known := schema[tm[1]]
+		if !known {
+			fail("statement %q names the table %s, which the schema does not create", query, tm[1])
+			continue
+		}
+		// every column compared with a placeholder exists in that table
+		for _, c := range reCmp.FindAllStringSubmatch(query, -1) {
+			if !ti.cols[strings.ToLower(c[1])] {
+				fail("statement %q compares %s, which is not a column of %s", query, c[1], tm[1])
+			}
+		}
+		// INSERT writes exactly the writable columns, in column order
+		if im := reInsert.FindStringSubmatch(query); im != nil {
+			var got []string
+			for _, c := range strings.Split(im[2], ",") {
+				got = append(got, strings.ToLower(strings.Trim(strings.TrimSpace(c), `\"`)))
+			}
+			if strings.Join(got, ",") != strings.Join(ti.writable, ",") {
+				fail("INSERT %q writes the columns %v of %s; the non-guard, non-serial columns are %v", query, got, tm[1], ti.writable)
+			}
+		}
+	}
 	for _, m := range govcCall.FindAllStringSubmatch(code, -1) {
 		query := m[2] + m[3]
 		if strings.Contains(query, "%s") || strings.Contains(query, "\" +") {
